@@ -40,8 +40,8 @@ func (vc *FuncVC) inputProbes() []probe {
 					ps = append(ps, probe{path, x.T, x.S, "bool", 0})
 				case x.S == SStr:
 					ps = append(ps, probe{path, x.T, x.S, "str", 0})
-					ps = append(ps, probe{path + "#id", app("str.id", x.T), SI32, "uint", 32})
-					ps = append(ps, probe{path + "#len", app("str.len", x.T), SI64, "int", 64})
+					ps = append(ps, probe{path + "#id", app("gs_id", x.T), SI32, "uint", 32})
+					ps = append(ps, probe{path + "#len", app("gs_len", x.T), SI64, "int", 64})
 				case bitsOf(t) > 0:
 					k := "uint"
 					if isSigned(t) {
